@@ -240,10 +240,11 @@ def _check_point(a, b, c, d, e, g, stype, linear):
     pr, pd_ = (5, 4) if linear else ((3, 3) if stype == 'rate' else (4, 3))
     for idx, (p, what) in enumerate(((pr, 'rotation'), (pd_, 'velocity increment'))):
         e1, e2 = errs[0.04][idx], errs[0.02][idx]
-        bound = 50 * sc ** (p if idx == 0 else p) * 0.04 ** p
-        if e1 > bound and not (e2 > 0 and e1 / e2 > 2 ** (p - 0.7)):
-            fails.append('%s %s error %.3g at T=0.04 (%.3g at 0.02) is not O(T^%d)' % (stype, what, e1, e2, p))
-        elif e1 > bound * 1e3:
+        # the error must fall at the documented order when the interval is halved (errors at the
+        # rounding level are exempt); and must not sit far above the natural O(T^p) size
+        if e1 > 1e-11 * sc and not (e2 > 0 and e1 / e2 > 2 ** (p - 0.6)):
+            fails.append('%s %s error %.3g at T=0.04 (%.3g at 0.02, ratio %.2f) does not fall like T^%d' % (stype, what, e1, e2, e1 / max(e2, 1e-300), p))
+        elif e1 > 50 * sc ** (p + 1) * 0.04 ** p:
             fails.append('%s %s error %.3g at T=0.04 far above the O(T^%d) level' % (stype, what, e1, p))
     return fails
 
